@@ -10,6 +10,7 @@ import (
 	"go/token"
 	"go/types"
 	"os"
+	"strconv"
 	"runtime/debug"
 	"strings"
 
@@ -517,7 +518,7 @@ func (r *run) callSSAx(caller *frame, callpos token.Pos, fn *ssa.Function, args 
 		for c := caller; c != nil; c = c.caller {
 			d++
 		}
-		if d < 12 {
+		if d < traceDepth {
 			var as []string
 			for _, a := range args {
 				as = append(as, truncate(toString(a), 40))
@@ -703,3 +704,11 @@ func (r *run) errorString(fr *frame, it iface) string {
 func shortPos(p string) string {
 	return strings.TrimPrefix(p, "/repo/")
 }
+
+// traceDepth: call depth shown by -trace (VERIF_TRACE_DEPTH, default 12)
+var traceDepth = func() int {
+	if n, err := strconv.Atoi(os.Getenv("VERIF_TRACE_DEPTH")); err == nil && n > 0 {
+		return n
+	}
+	return 12
+}()
